@@ -197,19 +197,53 @@ func elemMatches(raw []byte, dt ddlType, tok string) bool {
 		if x == v {
 			return true
 		}
-		// h5dump prints %g (6 significant digits)
-		return strconv.FormatFloat(v, 'g', 6, 64) == strconv.FormatFloat(x, 'g', 6, 64) || math.Abs(x-v) <= 5e-6*math.Abs(v)
+		// h5dump prints %g (6 significant digits) unless a format is given: compare at the precision of the printed token
+		nsig := 0
+		for _, ch := range strings.SplitN(strings.ToLower(tok), "e", 2)[0] {
+			if ch >= '0' && ch <= '9' && (nsig > 0 || ch != '0') {
+				nsig++
+			}
+		}
+		if nsig == 0 {
+			nsig = 1
+		}
+		for p := nsig; p <= 6 || p == nsig; p++ {
+			if y, err := strconv.ParseFloat(strconv.FormatFloat(v, 'g', p, 64), 64); err == nil && (y == x || math.Abs(y-x) <= 1e-12*math.Abs(x)) {
+				return true
+			}
+		}
+		return math.Abs(x-v) <= 5e-6*math.Abs(v)
 	}
 }
 
-type ddlStats struct{ datasets, attrs, values, files int }
+type ddlStats struct {
+	datasets, attrs, values, files int
+	kinds                         map[string]int
+}
 
 // compareDDLNode walks GROUP/DATASET/ATTRIBUTE blocks below n, which sits at HDF5 path `path`.
 func compareDDLNode(t *testing.T, file string, f *indep.File, n *ddlNode, path string, st *ddlStats, problems *[]string) {
-	for _, it := range n.items {
+	// attributes of a committed datatype follow its one-line declaration (DATATYPE "name" type;) without braces
+	target := path
+	for i, it := range n.items {
+		if s, isTok := it.(string); isTok {
+			if s == "DATATYPE" && i+1 < len(n.items) && n.kw == "GROUP" {
+				if nm, ok := n.items[i+1].(string); ok && strings.HasPrefix(nm, "\"") {
+					target = strings.TrimSuffix(path, "/") + "/" + strings.Trim(nm, "\"")
+				}
+			}
+			continue
+		}
 		c, ok := it.(*ddlNode)
 		if !ok {
 			continue
+		}
+		if c.kw == "ATTRIBUTE" {
+			compareDDLData(file, f, c, target, c.name, st, problems)
+			continue
+		}
+		if c.kw == "GROUP" || c.kw == "DATASET" {
+			target = path
 		}
 		switch c.kw {
 		case "GROUP", "DATASET", "DATATYPE":
@@ -235,6 +269,11 @@ func compareDDLData(file string, f *indep.File, n *ddlNode, path, attr string, s
 	data := n.child("DATA")
 	if !ok || data == nil || n.child("SUBSET") != nil {
 		return
+	}
+	for _, it := range n.items {
+		if s, isTok := it.(string); isTok && s == "PACKED_BITS" {
+			return // h5dump -M shows bit fields of the values, not the values
+		}
 	}
 	vals, ok := dataValues(data)
 	if !ok || len(vals) == 0 {
@@ -287,6 +326,20 @@ func compareDDLData(file string, f *indep.File, n *ddlNode, path, attr string, s
 		st.attrs++
 	} else {
 		st.datasets++
+		k := o.Layout
+		if o.ChunkIndex != "" {
+			k += "/" + o.ChunkIndex
+		}
+		for _, fl := range o.Filters {
+			k += "+" + fl.Name
+		}
+		if n.atomicType()[len(n.atomicType())-2:] == "BE" {
+			k += " (big-endian)"
+		}
+		if st.kinds == nil {
+			st.kinds = map[string]int{}
+		}
+		st.kinds[k]++
 	}
 	st.values += len(vals)
 	if bad > 0 {
@@ -349,6 +402,12 @@ func TestCorpusValuesAgainstDDL(t *testing.T) {
 		t.Errorf("%s", p)
 	}
 	t.Logf("compared %d datasets and %d attributes (%d values) from %d reference dumps", st.datasets, st.attrs, st.values, st.files)
+	var ks []string
+	for k, n := range st.kinds {
+		ks = append(ks, fmt.Sprintf("%4d  %s", n, k))
+	}
+	sort.Strings(ks)
+	t.Logf("dataset storage kinds compared:\n  %s", strings.Join(ks, "\n  "))
 	if st.values < 10000 {
 		t.Errorf("only %d values compared; the DDL cross-check is not exercising the corpus", st.values)
 	}
